@@ -14,6 +14,7 @@ import GaleneVerif.Engine.Group
 import GaleneVerif.Engine.Unbounded
 import GaleneVerif.Engine.Locks
 import GaleneVerif.Engine.Api
+import GaleneVerif.Engine.Rec
 /-
 Line-protocol driver.  usage: driver <engine> [oracle-only] < trace
 `oracle-only` (failing-input search): model/impl mismatches do not end the case;
@@ -93,7 +94,8 @@ def engines : List (String × EngineDef) :=
     ("group", Galene.Engine.Group.engine),
     ("unbounded", Galene.Engine.Unbounded.engine),
     ("locks", Galene.Engine.Locks.engine),
-    ("api", Galene.Engine.Api.engine) ]
+    ("api", Galene.Engine.Api.engine),
+    ("rec", Galene.Engine.Rec.engine) ]
 
 def main (args : List String) : IO UInt32 := do
   let (name?, oracleOnly) := match args with
